@@ -241,6 +241,7 @@ type fnLockInfo struct {
 	Reports    []lockReport
 	heldAt     map[ssa.Instruction]map[string]int // must-held (intersection over states): key -> mode
 	keyField   map[string]*types.Var              // lock key -> the lock's field object (nil for non-field locks)
+	keyLock    map[string]*types.Var              // lock key -> lock identity (cond.L folded onto its cond field / embedded RWMutex)
 	Returns    int
 	StatesSeen int
 }
@@ -320,7 +321,7 @@ func (le *LockEngine) translateSummary(calleeFn *ssa.Function, sum map[string]he
 }
 
 func (le *LockEngine) analyse(fn *ssa.Function) *fnLockInfo {
-	fi := &fnLockInfo{Fn: fn, heldAt: map[ssa.Instruction]map[string]int{}, keyField: map[string]*types.Var{}}
+	fi := &fnLockInfo{Fn: fn, heldAt: map[ssa.Instruction]map[string]int{}, keyField: map[string]*types.Var{}, keyLock: map[string]*types.Var{}}
 	if len(fn.Blocks) == 0 {
 		return fi
 	}
@@ -462,6 +463,7 @@ func (le *LockEngine) analyse(fn *ssa.Function) *fnLockInfo {
 					}
 					key := le.Aliases.canonKey(pt)
 					fi.keyField[key] = pt.Last()
+					fi.keyLock[key] = le.lockField(pt)
 					if op == opWait {
 						key = le.Aliases.canonKey(pt.with(condLField(recv)))
 					}
